@@ -41,6 +41,7 @@ package engine
 //@ pred resumeOK(r flows.Resume) bool := (typeis(r, *resumes.MsgResume) && r.(*resumes.MsgResume) != nil) || (typeis(r, *resumes.DialResume) && r.(*resumes.DialResume) != nil) || (typeis(r, *resumes.RunExpirationResume) && r.(*resumes.RunExpirationResume) != nil) || (typeis(r, *resumes.WaitTimeoutResume) && r.(*resumes.WaitTimeoutResume) != nil)
 //@ pred runRep(r *runs.run) bool opaque := r != nil && (r.path == nil || len(r.path) > 0) && (forall j int {r.path[j]} :: (0 <= j && j < len(r.path)) ==> (typeis(r.path[j], *runs.step) && r.path[j].(*runs.step) != nil)) && (isnil(r.flow) || (typeis(r.flow, *definition.flow) && FlowRep(r.flow.(*definition.flow))))
 //@ pred runsOK(s *session) bool := s != nil && (forall k int {s.runs[k]} :: (0 <= k && k < len(s.runs)) ==> (typeis(s.runs[k], *runs.run) && s.runs[k].(*runs.run) != nil && runRep(s.runs[k].(*runs.run))))
+//@ pred allRunsWF(s *session) bool := forall k int :: 0 <= k && k < len(s.runs) ==> runWF(s.runs[k].(*runs.run))
 //@ pred noneActiveOrWaiting(s *session) bool := forall k int :: 0 <= k && k < len(s.runs) ==> (s.runs[k].(*runs.run).status != flows.RunStatusActive && s.runs[k].(*runs.run).status != flows.RunStatusWaiting)
 // the state a caller persists (session JSON) is untouched: session, run, step and contact fields (transient fields excluded)
 //@ pred persistedUntouched() bool := unchanged("session::uuid", "session::type_", "session::env", "session::trigger", "session::contact", "session::runs", "session::status", "session::input", "runs.run::uuid", "runs.run::flowRef", "runs.run::flow", "runs.run::parent", "runs.run::results", "runs.run::path", "runs.run::events", "runs.run::status", "runs.run::createdOn", "runs.run::modifiedOn", "runs.run::exitedOn", "runs.step::*", "flows.Contact::*", "flows.GroupList::groups", "elems[flows.Run]", "elems[flows.Step]", "elems[flows.Event]")
@@ -84,8 +85,10 @@ package engine
 //@   ensures [all_exited] noneActiveOrWaiting(s)
 //@   ensures [failure_logged] len(sprint.events) == old(len(sprint.events)) + 1 && typeis(sprint.events[len(sprint.events) - 1], *events.FailureEvent)
 //@   ensures [runs_kept] s.runs == old(s.runs) && runsOK(s)
+//@   ensures [run_wf] (old(allRunsWF(s)) && old(runWF(waitingRun.(*runs.run)))) ==> allRunsWF(s)
 //@ loop 1
 //@   invariant s.runs == old(s.runs) && runsOK(s)
+//@   invariant (old(allRunsWF(s)) && old(runWF(waitingRun.(*runs.run)))) ==> allRunsWF(s)
 //@   invariant forall k int :: 0 <= k && k <= $i ==> (s.runs[k].(*runs.run).status != flows.RunStatusActive && s.runs[k].(*runs.run).status != flows.RunStatusWaiting)
 //@   invariant len(sprint.events) == old(len(sprint.events)) + 1 && typeis(sprint.events[len(sprint.events) - 1], *events.FailureEvent)
 
@@ -96,6 +99,7 @@ package engine
 //@   requires s != nil && sprint != nil && EngRep(s.engine)
 //@   assigns *, ghost.sprintSteps
 //@   ensures_trusted [no_engine_error] !typeis(result, *Error)
+//@   ensures [never_left_active] isnil(result) ==> (s.status == flows.SessionStatusWaiting || s.status == flows.SessionStatusCompleted || s.status == flows.SessionStatusFailed)
 //@   ensures [step_limit] ghost.sprintSteps - old(ghost.sprintSteps) <= (old(s.engine.(*engine).options.MaxStepsPerSprint) > 0 ? old(s.engine.(*engine).options.MaxStepsPerSprint) : 0)
 //@ loop 1
 //@   invariant s.engine == old(s.engine) && EngRep(s.engine) && s.engine.(*engine).options == old(s.engine.(*engine).options) && s.engine.(*engine).options.MaxStepsPerSprint == old(s.engine.(*engine).options.MaxStepsPerSprint)
@@ -115,6 +119,7 @@ package engine
 //@   nopanic until Apply
 //@   havocs ensureQueryBasedGroups, findResumeExit
 //@   requires runsOK(s) && sprint != nil && resumeOK(resume) && !isnil(s.engine) && EngRep(s.engine) && typeis(waitingRun, *runs.run) && waitingRun.(*runs.run) != nil && runRep(waitingRun.(*runs.run)) && (exists k int :: 0 <= k && k < len(s.runs) && s.runs[k] == waitingRun)
+//@   ensures [never_left_active] isnil(result) ==> (s.status == flows.SessionStatusWaiting || s.status == flows.SessionStatusCompleted || s.status == flows.SessionStatusFailed)
 //@   ensures [rejected_untouched] typeis(result, *Error) ==> (persistedUntouched() && sprint.events == old(sprint.events) && result.(*Error).code == ErrorResumeRejectedByWait)
 //@   ensures [missing_flow_fails] old(isnil(waitingRun.(*runs.run).flow)) ==> (isnil(result) && s.status == flows.SessionStatusFailed && noneActiveOrWaiting(s) && len(sprint.events) == old(len(sprint.events)) + 1 && typeis(sprint.events[len(sprint.events) - 1], *events.FailureEvent))
 //@   ensures [resume_limit_fails] old(!isnil(waitingRun.(*runs.run).flow) && s.countWaits() >= s.engine.(*engine).options.MaxResumesPerSession) ==> (isnil(result) && s.status == flows.SessionStatusFailed && noneActiveOrWaiting(s) && len(sprint.events) == old(len(sprint.events)) + 1 && typeis(sprint.events[len(sprint.events) - 1], *events.FailureEvent))
@@ -125,6 +130,13 @@ package engine
 //@   checks [no_events_on_error] typeis(result1, *Error) ==> (isnil(result0) || len(result0.(*sprint).events) == 0)
 //@   checks [codes] typeis(result1, *Error) ==> (result1.(*Error).code == ErrorResumeNonWaitingSession || result1.(*Error).code == ErrorResumeNoWaitingRun || result1.(*Error).code == ErrorResumeRejectedByWait)
 //@   checks [not_waiting_rejected] old(s.status) != flows.SessionStatusWaiting ==> !isnil(result1)
+//@   checks [never_left_active] isnil(result1) ==> (s.status == flows.SessionStatusWaiting || s.status == flows.SessionStatusCompleted || s.status == flows.SessionStatusFailed)
+
+// C01: a session start that returns without error leaves the session waiting, completed or failed
+//@ func (s *session) start
+//@   havocs prepareForSprint, Initialize, ensureQueryBasedGroups
+//@   requires s != nil && !isnil(s.trigger) && !isnil(s.engine) && EngRep(s.engine)
+//@   checks [never_left_active] isnil(result1) ==> (s.status == flows.SessionStatusWaiting || s.status == flows.SessionStatusCompleted || s.status == flows.SessionStatusFailed)
 
 // ---- C06: the engine's own re-evaluation of query based groups (start and every resume)
 //@ func (s *session) ensureQueryBasedGroups
